@@ -3,8 +3,9 @@ import json, os, sys, time, hashlib, subprocess
 
 VERIF = os.path.dirname(os.path.dirname(os.path.abspath(__file__)))
 REPO = os.environ.get('VERIF_REPO', '/repo')
-BUILD = os.path.join(VERIF, '.build')
-EVID = os.path.join(VERIF, 'evidence')
+BUILD = os.path.join(VERIF, '.build') if REPO == '/repo' else os.path.join(VERIF, '.build', 'alt-' + hashlib.sha1(REPO.encode()).hexdigest()[:8])
+
+EVID = os.path.join(VERIF, 'evidence') if REPO == '/repo' else os.path.join(BUILD, 'evidence')
 os.makedirs(BUILD, exist_ok=True)
 os.makedirs(EVID, exist_ok=True)
 
@@ -139,3 +140,22 @@ class Report:
             return EXIT_INCONCLUSIVE
         print(f'OK property={self.pid} tier={self.tier} queries={nq} verdicts={verd} wall={wall:.1f}s')
         return EXIT_OK
+
+
+def harness_crate(name):
+    """directory of a harness crate (kani / replay / replay-gen) whose path dependencies point at REPO.
+    For the real /repo this is the committed crate itself; for a scratch tree (mutation testing) a rewritten copy."""
+    src = os.path.join(VERIF, name)
+    if REPO == '/repo':
+        return src
+    import shutil
+    dst = os.path.join(BUILD, 'crate-' + name)
+    shutil.rmtree(dst, ignore_errors=True)
+    shutil.copytree(src, dst, ignore=shutil.ignore_patterns('target', 'Cargo.lock'))
+    for root, _, files in os.walk(dst):
+        for f in files:
+            if f in ('Cargo.toml', 'build.rs'):
+                p = os.path.join(root, f)
+                t = open(p).read().replace('"/repo/', '"' + REPO.rstrip('/') + '/')
+                open(p, 'w').write(t)
+    return dst
